@@ -13,6 +13,9 @@ type NodeSpec struct {
 // DocSpec is a document: the children of its root node.
 type DocSpec struct {
 	C []*NodeSpec `json:"c"`
+	// NoNS: the document is navigated through a second navigator implementation
+	// that has no NamespaceURL() method
+	NoNS bool `json:"no_ns,omitempty"`
 }
 
 // Count returns the number of nodes including the root and attributes.
@@ -43,6 +46,7 @@ func (x *NodeSpec) clone() *NodeSpec {
 
 func (d DocSpec) Clone() DocSpec {
 	var o DocSpec
+	o.NoNS = d.NoNS
 	for _, c := range d.C {
 		o.C = append(o.C, c.clone())
 	}
@@ -103,8 +107,12 @@ func GenWideDoc(r *Rng) DocSpec {
 // concatenation or lossy hashing.
 func GenTableDoc(r *Rng) DocSpec {
 	vals := []string{"", "a", "b", "ab"}
-	if r.Chance(1, 3) {
+	switch r.Intn(4) {
+	case 0:
 		vals = []string{"1", "12", "2", ""}
+	case 1, 2:
+		// values containing the characters keys are usually glued together with
+		vals = [][]string{{"x|y", "z", "x", "y|z"}, {"a-1", "1", "a", "-11"}, {"a,b", "c", "a", "b,c"}, {"p:q", "r", "p", "q:r"}}[r.Intn(4)]
 	}
 	names := []string{"k", "n", "id"}[:r.Range(2, 3)]
 	row := r.Pick([]string{"a", "b", "c"})
